@@ -168,6 +168,11 @@ def ecmaDigits (env : Env) : List Nat â†’ Nat â†’ Nat â†’ Option (Nat Ã— Nat) â†
         ecmaDigits env rest newcap (pos + 1) best
     else some best
 
+/-- well-formed group maps: group number 0 exists and every named group's number is a capture slot
+    (true of the maps of every compiled regex; evaluated by the driver on each case) -/
+def envOk (env : Env) : Bool :=
+  isCaptureSlot env 0 && env.names.all (fun p => isCaptureSlot env p.2)
+
 /-- "unrecognized $: literalize": the `$` alone, nothing consumed after it -/
 def literalDollar : Tok Ã— Nat := (.ch dollar, 0)
 
